@@ -112,6 +112,31 @@ fn real_main(mut args: Vec<String>) -> i32 {
             }
             0
         }
+        "e5dbg" => {
+            // harness e5dbg <scenario substring> [bound]: all distinct signatures of one scenario script with the C14 oracle's verdict
+            let want = args.get(1).cloned().unwrap_or_default();
+            let bound: usize = args.get(2).and_then(|x| x.parse().ok()).unwrap_or(2);
+            for sc in props::c14::scenarios().into_iter().filter(|s| s.name.contains(&want)) {
+                out!("== {}", sc.name);
+                let seen = std::sync::Mutex::new(std::collections::BTreeMap::<String, (u64, Option<String>)>::new());
+                let oracle = |e: &sched::Exec| -> Option<String> {
+                    let v = props::c14::oracle(e);
+                    let sig = e.log.iter().map(|ev| match ev { sched::Ev::Deliver(_) => String::new(), sched::Ev::Consume(l) => format!("<{}>", l.split_whitespace().take(2).collect::<Vec<_>>().join(" ")), sched::Ev::Out(t, l) => if l.starts_with("info") { String::new() } else { format!("{}:{}", t, l) } }).filter(|x| !x.is_empty()).collect::<Vec<_>>().join(" ");
+                    let evs = e.events.iter().filter(|(t, n)| e.names.get(*t) == Some(&"timer") || *n == "exit" || n.contains("flag") || n.contains("raise")).map(|(t, n)| format!("{}{}.{}", e.names.get(*t).unwrap_or(&"?"), t, n)).collect::<Vec<_>>().join(",");
+                    let sig = if std::env::var_os("E5DBG_EVENTS").is_some() { format!("{} || {}", sig, evs) } else { sig };
+                    let mut g = seen.lock().unwrap();
+                    let ent = g.entry(sig).or_insert((0, v.clone()));
+                    ent.0 += 1;
+                    None
+                };
+                let r = sched::explore(&sc.lines, bound, props::c14::HORIZON, &oracle, 200_000);
+                out!("executions {}", r.executions);
+                for (k, (n, v)) in seen.lock().unwrap().iter() {
+                    out!("  x{} {} => {:?}", n, k, v);
+                }
+            }
+            0
+        }
         "c12bench" => {
             let p = refchess::parse_fen_strict("8/8/6K1/1Pp5/3k4/8/8/8 w - c6 0 1").unwrap().pos;
             let strings = props::c12::alphabet();
